@@ -435,6 +435,41 @@ def report(ctx, case, res):
     ctx.impl_fail(f"{res['clause']}/{res['trigger']}", res["what"], case)
 
 
+def report_functional(ctx, fails):
+    """shrink each failing functional case; a failure pattern that shows on three or more classes is a defect of the
+    shared marshalling code and is reported once, with the class left open"""
+    shrunk = []
+    seen = set()
+    for case, res in fails:
+        try:
+            small = F.shrink_functional(case)
+            r2 = F.run_case(small)
+            if r2 is not None:
+                case, res = small, r2
+        except Exception:   # pylint: disable=broad-except
+            pass
+        key = (res["clause"], res["trigger"])
+        if key in seen and len(shrunk) > 40:
+            continue
+        seen.add(key)
+        shrunk.append((case, res))
+    by_pat = {}
+    for case, res in shrunk:
+        if res["clause"] == "functional-differs":
+            cls, _, pat = res["trigger"].partition(":")
+            by_pat.setdefault(pat, set()).add(cls)
+    wide = {pat for pat, cl in by_pat.items() if len(cl) >= 3}
+    for case, res in shrunk:
+        trig = res["trigger"]
+        if res["clause"] == "functional-differs":
+            cls, _, pat = trig.partition(":")
+            if len(wide) >= 3:
+                trig = "any-class:any-keyword"
+            elif pat in wide:
+                trig = "any-class:" + pat
+        ctx.impl_fail(f"{res['clause']}/{trig}", res["what"], case)
+
+
 def search(ctx, big):
     rng = ctx.rng
     mult = 5 if big else 1
@@ -476,6 +511,7 @@ def search(ctx, big):
             report(ctx, case, res)
     # functional interface: every registered class (CustomSource has no parameters to hand over: no functional form)
     n_fun = ctx.n(24, 300) * mult
+    func_fails = []
     for cls in [c for c in REAL_CLASSES if c != "CustomSource"] + ["PolylineSeg"]:
         for i in range(n_fun):
             case = F.gen_func_case(rng, cls, field=F.FIELDS[i % 4])
@@ -485,7 +521,8 @@ def search(ctx, big):
             for k, m in case["modes"].items():
                 ctx.bump(f"functional-mode:{m}")
             if res:
-                report(ctx, case, res)
+                func_fails.append((case, res))
+    report_functional(ctx, func_fails)
     ctx.samples.append({"functional_case": {k: case[k] for k in ("cls", "field", "n", "modes")}})
     # core
     for cls in F.CORE_CLASSES:
